@@ -193,6 +193,8 @@ structure Semantics where
 def actual : Semantics := ⟨.append, false, false, false, .append, .append⟩
 /-- the repaired behaviour proposed in /verif/fixes/C17-*.md -/
 def fixed : Semantics := ⟨.truncate, true, true, true, .ifAbsent, .truncate⟩
+/-- the three generators repaired, `new_project` left as it is (if that one stays a known finding) -/
+def fixedGen : Semantics := { fixed with pyprojMode := .append, toxMode := .append }
 /-- **the one-line switch**: what the library is claimed to do today (compared with it on every run) -/
 def current : Semantics := actual
 
@@ -298,8 +300,32 @@ def applyActs (fs : FS) (acts : List Action) : FS :=
 def applyPlan (fs : FS) (pl : Plan) : FS :=
   applyActs (match pl.wipe with | some d => wipe fs d | none => fs) pl.acts
 
-def Plan.names (pl : Plan) (d : Dir) : List Str :=
-  (pl.acts.filter fun a => a.path.1 = d).map fun a => a.path.2
+/-- what a generator writes, relative to its output directory (`--op-dir` appears nowhere in it) -/
+structure RelAction where
+  name : Str
+  mode : Mode
+  chunks : List Chunk
+  deriving DecidableEq, Repr, Inhabited
+
+structure RelPlan where
+  /-- `shutil.rmtree(op_dir)` first (ASN.1) -/
+  wipe : Bool
+  acts : List RelAction
+  modules : List Str
+  deriving DecidableEq, Repr, Inhabited
+
+def RelAction.at (d : Dir) (a : RelAction) : Action := ⟨(d, a.name), a.mode, a.chunks⟩
+
+def RelPlan.at (d : Dir) (rp : RelPlan) : Plan :=
+  ⟨if rp.wipe then some d else none, rp.acts.map (RelAction.at d), rp.modules⟩
+
+/-- the chunks of the last action on file `n` -/
+def lastByName : List RelAction → Str → Option (List Chunk)
+  | [], _ => none
+  | a :: rest, n =>
+    match lastByName rest n with
+    | some cs => some cs
+    | none => if a.name = n then some a.chunks else none
 
 /-- `dict[name]` on a dict built by `{f.name: f for f in fields}` (a later duplicate wins) -/
 def lookupLast : List (Nm × Nat) → Nm → Except Err Nat
@@ -321,7 +347,7 @@ def resolveAll (tbl : List (Nm × Nat)) : List Nm → Except Err (List Nat)
 
 /-- ITCH / OUCH / SQF: `Parser.parse(spec_file)` then `Generator(...).generate()` -/
 def planSoup (sem : Semantics) (st : ProcState) (impl : Impl) (spec : SoupSpec) (o : GenOpts) :
-    ProcState × Except Err Plan :=
+    ProcState × Except Err RelPlan :=
   -- Parser.parse: `FieldDef.Definitions` is a class attribute; it is assigned only `elif element.tag == 'fielddef-root'`
   let tbl0 := if sem.resetFieldDefs then [] else st.fieldDefs
   let tbl := match spec.root with
@@ -333,9 +359,9 @@ def planSoup (sem : Semantics) (st : ProcState) (impl : Impl) (spec : SoupSpec) 
   | .error e => (st', .error e)
   | .ok resolved =>
     let modName := prefix_ o.pfx ++ impl.str ++ sUnderscore ++ o.app
-    let modAct : Action := ⟨(o.dir, modName ++ sPy), sem.genMode, [.soupModule impl o.app spec.id spec.msgs resolved]⟩
-    let initAct : Action := ⟨(o.dir, sInit ++ sPy), sem.genMode, [.initLine modName]⟩
-    (st', .ok ⟨none, if o.init then [modAct, initAct] else [modAct], [modName]⟩)
+    let modAct : RelAction := ⟨modName ++ sPy, sem.genMode, [.soupModule impl o.app spec.id spec.msgs resolved]⟩
+    let initAct : RelAction := ⟨sInit ++ sPy, sem.genMode, [.initLine modName]⟩
+    (st', .ok ⟨false, if o.init then [modAct, initAct] else [modAct], [modName]⟩)
 
 /-- the class-level state of `fix.parser.definitions.Group` -/
 structure FixState where
@@ -383,7 +409,7 @@ def typesKnown (spec_version : Nat) (counts : List Nm) : Bool := spec_version !=
 
 /-- FIX: `parse(spec_file, version)` (no class-level state) then `Generator(...)` — whose `__attrs_post_init__` already
     evaluates `definitions.get_codegen_context()` — then `.generate()` -/
-def planFix (sem : Semantics) (st : ProcState) (spec : FixSpec) (o : GenOpts) : ProcState × Except Err Plan :=
+def planFix (sem : Semantics) (st : ProcState) (spec : FixSpec) (o : GenOpts) : ProcState × Except Err RelPlan :=
   if !typesKnown spec.version spec.counts then (st, .error .key)
   else
   let s0 : FixState := ⟨if sem.resetContexts then [] else st.contexts, if sem.resetCounter then [] else st.counter⟩
@@ -394,26 +420,26 @@ def planFix (sem : Semantics) (st : ProcState) (spec : FixSpec) (o : GenOpts) : 
   if !versionOk spec.version then (st', .error .value)
   else
     let mp := prefix_ o.pfx ++ sFix ++ o.app
-    let f (suffix : Str) (c : Chunk) : Action := ⟨(o.dir, mp ++ suffix ++ sPy), sem.genMode, [c]⟩
-    let acts : List Action := [
+    let f (suffix : Str) (c : Chunk) : RelAction := ⟨mp ++ suffix ++ sPy, sem.genMode, [c]⟩
+    let acts : List RelAction := [
       f sFields (.fixFields spec.id spec.fields spec.counts),
       f sGroups (.fixGroups mp k.1.contexts),                 -- `'groups': Group.Contexts`
       f sBodies (.fixBodies mp spec.id spec.msgFields k.2),
       f sMessages (.fixMessages mp spec.id spec.msgFields k.2),
-      ⟨(o.dir, sApp ++ sPy), sem.genMode, [.fixApp o.app (clientSession spec.version)]⟩ ]
-    let initAct : Action := ⟨(o.dir, sInit ++ sPy), sem.genMode, [.fixInit mp]⟩
-    (st', .ok ⟨none, if o.init then acts ++ [initAct] else acts,
+      ⟨sApp ++ sPy, sem.genMode, [.fixApp o.app (clientSession spec.version)]⟩ ]
+    let initAct : RelAction := ⟨sInit ++ sPy, sem.genMode, [.fixInit mp]⟩
+    (st', .ok ⟨false, if o.init then acts ++ [initAct] else acts,
       [mp ++ sFields, mp ++ sGroups, mp ++ sBodies, mp ++ sMessages, sApp]⟩)
 
 /-- ASN.1: `Ans1Generator.__attrs_post_init__` removes the output directory, `generate` writes the module, the init file
     and copies the input files to `<op_dir>/spec/` -/
 def planAsn1 (sem : Semantics) (st : ProcState) (spec : Asn1Spec) (pdu package : Str) (o : GenOpts) :
-    ProcState × Except Err Plan :=
+    ProcState × Except Err RelPlan :=
   let modName := prefix_ o.pfx ++ o.app
-  let modAct : Action := ⟨(o.dir, modName ++ sPy), sem.genMode, [.asn1Module o.app pdu package]⟩
-  let initAct : Action := ⟨(o.dir, sInit ++ sPy), sem.genMode, [.initLine modName]⟩
-  let copies : List Action := spec.files.map fun f => ⟨(o.dir, sSpecDir ++ f.1), .truncate, [.asn1File f.2]⟩
-  (st, .ok ⟨some o.dir, (if o.init then [modAct, initAct] else [modAct]) ++ copies, [modName]⟩)
+  let modAct : RelAction := ⟨modName ++ sPy, sem.genMode, [.asn1Module o.app pdu package]⟩
+  let initAct : RelAction := ⟨sInit ++ sPy, sem.genMode, [.initLine modName]⟩
+  let copies : List RelAction := spec.files.map fun f => ⟨sSpecDir ++ f.1, .truncate, [.asn1File f.2]⟩
+  (st, .ok ⟨true, (if o.init then [modAct, initAct] else [modAct]) ++ copies, [modName]⟩)
 
 /-- `_validate_applications`: an application name given twice is rejected -/
 def dupApps : List (Str × Impl) → Bool
@@ -433,12 +459,21 @@ def planNewProject (sem : Semantics) (st : ProcState) (t : Nat) (name : Str) (ap
     let tox : Action := ⟨(.proj t name, sTox), sem.toxMode, [.tox (srcName name) apps]⟩
     (st, .ok ⟨none, xmls ++ [touch, pyproj, tox], []⟩)
 
-def plan (sem : Semantics) (st : ProcState) : Inv → ProcState × Except Err Plan
+/-- the three generators, relative to the output directory (for the other invocations: nothing) -/
+def planGen (sem : Semantics) (st : ProcState) : Inv → ProcState × Except Err RelPlan
   | .soup impl spec o => planSoup sem st impl spec o
   | .fix spec o => planFix sem st spec o
   | .asn1 spec pdu package o => planAsn1 sem st spec pdu package o
+  | _ => (st, .ok ⟨false, [], []⟩)
+
+def plan (sem : Semantics) (st : ProcState) : Inv → ProcState × Except Err Plan
   | .newProject t name apps => planNewProject sem st t name apps
   | .userEdit p n => (st, .ok ⟨none, [⟨p, .truncate, [.userText n]⟩], []⟩)
+  | i =>
+    let r := planGen sem st i
+    match r.2 with
+    | .ok rp => (r.1, .ok (rp.at i.dir))
+    | .error e => (r.1, .error e)
 
 /-- one invocation: the new world and the outcome (`ok` or the exception class that escaped; nothing is written then,
     because every failure modelled here happens before the first `open`) -/
